@@ -216,6 +216,10 @@ func Run(r *common.Run) error {
 				runRcpt(r, parseIDs(f[2]), replayable(f[3]), "replay")
 			case "wrap":
 				runWrap(r, f[2][0], f[3], "replay")
+			case "key":
+				if k, ok := parseKeyLine(f[1:]); ok {
+					runKey(r, k, "replay")
+				}
 			}
 		}
 		return nil
@@ -243,6 +247,8 @@ func Run(r *common.Run) error {
 	}
 	// the helpers that own the response they wait for, over every reply shape
 	runWraps(r)
+	// the key a call waits under against the id on the wire; addresses of request and reply
+	runKeys(r)
 	// the listener's table of expected streams
 	runExpects(r)
 	// the waits of one in-band bytestream: blocked Read / Write / Close against peer packets on
